@@ -3,6 +3,8 @@ package main
 // VC generation for one function: symbolic execution of go/ssa into SMT-LIB.
 
 import (
+	"os"
+	"runtime/debug"
 	"fmt"
 	"go/constant"
 	"go/token"
@@ -225,6 +227,9 @@ func (vc *VC) oblige(kind, label, reach, goal, desc string) *Obligation {
 			name = fmt.Sprintf("%s#%s[%s.%d]", vc.funcName, kind, label, vc.counters[kind+"/"+label])
 		}
 		vc.counters[kind+"/"+label]++
+	}
+	if reach == "" && os.Getenv("GOVC_DEBUG") != "" && !vc.discovery {
+		fmt.Fprintf(os.Stderr, "DEBUG empty reach: %s block=%v inl=%v\n%s\n", name, vc.curBlock, vc.inl != nil, debug.Stack())
 	}
 	o := &Obligation{Name: name, Kind: kind, Desc: desc, Func: vc.funcName, nlines: len(vc.lines), reach: reach, goal: goal, vc: vc, expect: "unsat"}
 	if !vc.discovery {
@@ -1059,6 +1064,8 @@ func (vc *VC) execBlocks(order []*ssa.BasicBlock, entrySt *State) {
 		vc.curBlock = b
 		if lp, ok := vc.loopOf[b]; ok {
 			st = vc.enterLoop(lp, b, st, edges)
+			vc.curBlock = b // (the discovery pass inside enterLoop moves it)
+			vc.active = vc.loopContaining(b)
 		} else {
 			for _, in := range b.Instrs {
 				if ph, ok := in.(*ssa.Phi); ok {
